@@ -15,6 +15,8 @@ void scen_c10_conc(mt_case *);
 void scen_c12(mt_case *);
 void scen_c13(mt_case *);
 void scen_c14(mt_case *);
+void scen_c15_env(mt_case *);
+void scen_c15_hist(mt_case *);
 void scen_c17(mt_case *);
 void scen_c17_mtbb(mt_case *);
 void scen_c20(mt_case *);
@@ -34,6 +36,8 @@ const mt_scenario mt_scenarios[] = {
   { 12, "C12 stacks/records lifetime", scen_c12 },
   { 13, "C13 reaping", scen_c13 },
   { 14, "C14 once", scen_c14 },
+  { 15, "C15 environment", scen_c15_env },
+  { 35, "C15 init/fini histories", scen_c15_hist },
   { 17, "C17 bulk fork-join (C API)", scen_c17 },
   { 27, "C17 mtbb task_group / parallel_for", scen_c17_mtbb },
   { 20, "C20 sleep and timed waits", scen_c20 },
